@@ -37,7 +37,7 @@ Sizes == {n \in Radix2Sizes \cup MixedSizes : n <= MAXN}
 Offsets == {1, FGEN, FpMul(P, FGEN, FGEN), FpNeg(P, 1)}
 Doms == {Dom(n, h) : n \in Sizes, h \in Offsets}
 
-MCInit == /\ regs \in [Reg -> (IF MODE = "domain" THEN {<<>>} ELSE Polys(DEG))]
+MCInit == /\ regs \in [Reg -> (IF MODE \in {"domain", "fftbig"} THEN {<<>>} ELSE Polys(DEG))]
           /\ ev = [op |-> "init"]
 
 ArithNext ==
@@ -70,8 +70,19 @@ DomainNext ==
          \/ \E tau \in Taus \cup {DomElem(P, dom.g, dom.h, 0), DomElem(P, dom.g, dom.h, dom.n - 1)} :
                DomQuery("vanishing_eval", dom, 0, tau, <<>>) \/ DomQuery("lagrange_all", dom, 0, tau, <<>>)
 
+\* larger domains (sizes MAXN/4 .. MAXN): a few input vectors at the lengths around the degree-aware
+\* threshold (4 len <= n) - these sizes reach the chunked / parallel code paths
+BigSizes == {n \in Sizes : 4 * n >= MAXN}
+BigVec(len, kind) == CASE kind = 1 -> UnitVec(len, 1) [] kind = 2 -> UnitVec(len, len) [] kind = 3 -> [i \in 1..len |-> 1] \o <<>>
+                      [] kind = 4 -> [i \in 1..len |-> (7 * i * i + 3 * i + 1) % P] \o <<>>
+FftBigNext ==
+    \E n \in BigSizes, h \in {1, FGEN} :
+      \/ \E len \in {l \in {1, n \div 4, n \div 4 + 1, n \div 2, n - 1, n} : l >= 1}, kind \in 1..4 : DomQuery("fft", Dom(n, h), 0, 0, BigVec(len, kind))
+      \/ \E kind \in 1..4 : DomQuery("ifft", Dom(n, h), 0, 0, BigVec(n, kind))
+      \/ DomQuery("elements", Dom(n, h), 0, 0, <<>>)
+      \/ \E tau \in {2, FGEN} : DomQuery("lagrange_all", Dom(n, h), 0, tau, <<>>)
 MCNext == /\ ev.op = "init"
-          /\ CASE MODE = "arith" -> ArithNext [] MODE = "unary" -> UnaryNext [] MODE = "domain" -> DomainNext
+          /\ CASE MODE = "arith" -> ArithNext [] MODE = "unary" -> UnaryNext [] MODE = "domain" -> DomainNext [] MODE = "fftbig" -> FftBigNext
 
 View == regs
 Emit == EmitLine(ToJson([pre |-> regs, ev |-> ev', post |-> regs']))
